@@ -209,6 +209,32 @@ func policyFor(q *ref.Quote, spare int) *validate.Options {
 	}
 }
 
+// deepCopyOptions copies a validation options value with all its byte strings (nil stays nil, empty stays empty).
+func deepCopyOptions(o *validate.Options) *validate.Options {
+	cp := func(b []byte) []byte {
+		if b == nil {
+			return nil
+		}
+		return append([]byte{}, b...)
+	}
+	cpl := func(l [][]byte) [][]byte {
+		if l == nil {
+			return nil
+		}
+		out := make([][]byte, len(l))
+		for i := range l {
+			out[i] = cp(l[i])
+		}
+		return out
+	}
+	n := *o
+	n.HeaderOptions.QeVendorID = cp(o.HeaderOptions.QeVendorID)
+	t, s := &n.TdQuoteBodyOptions, &o.TdQuoteBodyOptions
+	t.MinimumTeeTcbSvn, t.MrSeam, t.TdAttributes, t.Xfam, t.MrTd, t.MrConfigID = cp(s.MinimumTeeTcbSvn), cp(s.MrSeam), cp(s.TdAttributes), cp(s.Xfam), cp(s.MrTd), cp(s.MrConfigID)
+	t.MrOwner, t.MrOwnerConfig, t.ReportData, t.Rtmrs, t.AnyMrTd = cp(s.MrOwner), cp(s.MrOwnerConfig), cp(s.ReportData), cpl(s.Rtmrs), cpl(s.AnyMrTd)
+	return &n
+}
+
 var raceBlock = regexp.MustCompile(`(?s)WARNING: DATA RACE.*?==================`)
 var frameRe = regexp.MustCompile(`(?m)^  ([^\s(]+)\(`)
 
@@ -271,6 +297,12 @@ func c16(x *mon.Ctx) {
 				}
 				vo, _ := mon.Options(s.c)
 				po := policyFor(q, 32)
+				if len(call.name)%2 == 0 { // half of the calls: a policy with "do not care" entries in its lists
+					po.TdQuoteBodyOptions.Rtmrs[1], po.TdQuoteBodyOptions.Rtmrs[3] = []byte{}, nil
+					po.TdQuoteBodyOptions.AnyMrTd = append(po.TdQuoteBodyOptions.AnyMrTd, []byte{})
+					po.TdQuoteBodyOptions.MrOwner = []byte{}
+				}
+				keepPo := deepCopyOptions(po)
 				keep := proto.Clone(m)
 				regs := snapshot(map[string]any{"message": m, "raw": raw, "policy": po})
 				var verdict string
@@ -283,6 +315,8 @@ func c16(x *mon.Ctx) {
 					prob = call.name + " wrote to memory reachable from its inputs: " + d
 				} else if !proto.Equal(m, keep) {
 					prob = call.name + " changed the quote message"
+				} else if !reflect.DeepEqual(po, keepPo) {
+					prob = call.name + " changed the caller's validation options (an entry was replaced, filled in or re-sliced): " + fmt.Sprintf("%x -> %x", keepPo.TdQuoteBodyOptions.Rtmrs, po.TdQuoteBodyOptions.Rtmrs)
 				}
 				if prob != "" {
 					x.Violation("no-write/"+form, param, prob, "verify", s.c)
